@@ -119,6 +119,34 @@ def job_stochastic_model(res, n, dt):
     prove(res, 'stationary variance of y\' = (1-e)y - xi with Var xi = 2e/D^2 is 1/(D^2 (1-e/2)) (algebra)', [E > 0, E < 1, D > 0, S2 == 2 * E / (D * D), V == (1 - E) * (1 - E) * V + S2],
           V * D * D * (1 - E / 2) != 1, key='fp-stochastic-stationary-width')
 
+def job_fp_track_centroid(res, n, fptype, dt, fptrack=1):
+    """deterministic Fokker-Planck tracking: a particle on a grid point moves like the centre of a unit blob put through the same map's apply(), for every damping decrement e1 in (0,1/4]
+    and every Fokker-Planck type (none / damping / diffusion / full) - the map is built by the real constructor from IR with e1 symbolic"""
+    bld = maps_build(); mod = load_module(bld, MAPS_MODS)
+    pmin, pmax = -6.0, 6.5
+    snap, R, pre = maps_world(bld, n, 1, 4, pmin=pmin, pmax=pmax, qmin=-4.0, qmax=8.0)
+    ex = Exec(mod, snap, RealDom()); st = State()
+    e1 = z3.Real('e1'); st.pc += [e1 > 0, e1 <= Fraction(1, 4)]; st.ranges['e1'] = (Fraction(0), Fraction(1, 4))
+    st = ex.run1(st, 'e_new_fp', [R['in'], R['out'], fptype, fptrack, e1, dt]); fpm = st.retval; st.frames = []
+    zb = ((pmin + pmax) / (pmin - pmax) + 1) * (n - 1) / 2; zc = int(math.floor(zb)); X = n // 2
+    rows = [y for y in range(4, n - 4) if not (dt == 4 and zc - 2 <= y <= zc + 1)]
+    for Y in (rows[0], rows[len(rows) // 2], rows[-1]):
+        s0 = st.fork(); s0.frames = []
+        for i in range(n * n): ex.write_bytes(s0, R['data_in'] + 4 * i, bytes(4))
+        ex.write_bytes(s0, R['data_in'] + 4 * (X * n + Y), struct.pack('<f', 1.0))
+        sa = run_paths(ex, s0, 'e_apply', [fpm])[0]; sa.frames = []
+        col = [ex.dom.z(ex.load(sa, R['data_out'] + 4 * (X * n + y), F32)) for y in range(n)]
+        tot = sum(col[1:], col[0]); cen = sum([y * c for y, c in enumerate(col)], z3.RealVal(0))
+        ex.write_bytes(sa, R['pos'], struct.pack('<ff', float(X), float(Y)))
+        for sb in run_paths(ex, sa, 'e_applyTo', [fpm, R['pos']]):
+            ny = ex.dom.z(ex.load(sb, R['pos'] + 4, F32)); nx = ex.dom.z(ex.load(sb, R['pos'], F32))
+            tol = z3.RealVal('1/10000')
+            prove(res, 'FP tracking model %d, type %d, stencil %d, n=%d: a particle on grid point (%d,%d) moves in energy by the shift of the centre of a unit blob under apply(), for every e1; its position is unchanged' % (fptrack, fptype, dt, n, X, Y),
+                  list(sb.pc) + [tot > 0], z3.Or((ny - Y) * tot - (cen - Y * tot) > tol * tot, (ny - Y) * tot - (cen - Y * tot) < -tol * tot, nx != X), key='fp-track-centroid',
+                  cex_fn=lambda m, Y=Y: {'replay': 'fpcent', 'n': n, 'X': X, 'fptrack': fptrack, 'fptype': fptype, 'dt': dt, 'Y': Y, 'e1': mval(m, e1), 'particle_dy': mval(m, ny) - Y, 'blob_dy': mval(m, cen) / max(1e-30, mval(m, tot)) - Y})
+        account(res, ex, mod, [sa])
+    if fptype in (1, 3): witness(res, 'FP tracking model %d type %d: the particle shift depends on e1' % (fptrack, fptype), list(st.pc), z3.BoolVal(True))
+
 def job_centroid(res, n, it, axis, X, Y, frac):
     """particle at (X[+1/2], Y) vs the centre of a unit blob of charge placed on it, after one kick with a symbolic displacement field"""
     bld = maps_build(); mod = load_module(bld, MAPS_MODS)
@@ -157,7 +185,13 @@ def job_centroid(res, n, it, axis, X, Y, frac):
 
 def replayer(bld):
     def rp(path, c):
-        what = c['replay']; n = c['n']
+        what = c['replay']
+        if what == 'fpcent':
+            n = c['n']; X, Y = c['X'], c['Y']; data = [0.0] * (n * n); data[X * n + Y] = 1.0; e1 = min(0.25, max(1e-3, float(c['e1'])))
+            o = native_run(bld, {'what': 'fp', 'n': n, 'nb': 1, 'it': 4, 'seed': 7, 'fptype': c['fptype'], 'fptrack': c['fptrack'], 'dt': c['dt'], 'e1': e1, 'pmin': -6.0, 'pmax': 6.5, 'qmin': -4.0, 'qmax': 8.0, 'data': data, 'pos': [float(X), float(Y)]}, 'c15')
+            col = o['out'][X * n:(X + 1) * n]; tot = sum(col); blob = sum(y * v for y, v in enumerate(col)) / tot - Y; part = o['posout'][1] - Y
+            return (abs(part - blob) > 1e-3, 'native (e1 = %g): the particle moves by %.5f cells, the centre of the unit blob by %.5f' % (e1, part, blob))
+        n = c['n']
         if what == 'kickpos':
             o = native_run(bld, {'what': 'kick', 'n': n, 'nb': c['nb'], 'it': c['it'], 'seed': 7, 'axis': c['axis'], 'off': [float(x) for x in c['off']], 'pos': [float(x) for x in c['pos']]}, 'c15')
             q = o['posout']; bad = not (0 <= q[0] <= n - 1 and 0 <= q[1] <= n - 1)
@@ -195,6 +229,7 @@ def main(tier):
         jobs = [(job_contain_kick, (8, 1, 2, ax)) for ax in (0, 1)] + [(job_contain_kick, (6, 2, 4, ax)) for ax in (0, 1)]
         jobs += [(job_contain_fp, (8, 1, ft, dt)) for ft in (0, 1, 2, 3) for dt in (3, 4)]
         jobs += [(job_stochastic_model, (8, 3)), (job_stochastic_model, (9, 4))]
+        jobs += [(job_fp_track_centroid, (16, ft, dt)) for ft in (0, 1, 2, 3) for dt in (3, 4)]
         jobs += [(job_contain_ieee, (8, 'fpm', ft, dt, yi)) for ft in (1, 2) for dt in (3, 4) for yi in (0, 1, 4, 6, 7)]
         jobs += [(job_contain_ieee, (8, w, 1, 3, yi)) for w in ('kmx', 'kmy') for yi in (0, 3, 7)]
         jobs += [(job_centroid, (10, it, ax, X, Y, fr)) for it in (2, 4) for ax in (0, 1) for (X, Y) in ((4, 5), (2, 4)) for fr in (0, 1)]
